@@ -776,13 +776,21 @@ func (f *facts) flowTables(conn, tr *ast.File) string {
 				}
 			}
 		}
+		// grabConnTo (the Resolver path): the scan of the idle stack and its address test
+		if bx, ok := e.(*ast.BinaryExpr); ok && bx.Op == token.GEQ && src(f.fset, bx.Y) == "0" {
+			return "idleLeft"
+		}
+		if strings.Contains(t, ".network ==") || strings.Contains(t, ".address ==") {
+			return "addressMatches" // both halves of `c.network == network && c.address == address`
+		}
 		return ""
 	}
 	for _, fn := range []struct {
 		name  string
 		preds []string
 	}{{"releaseConn", []string{"groupClosed", "hasTimer"}}, {"grabConn", []string{"idleEmpty", "hasTimer"}},
-		{"removeConn", []string{"hasTimer", "isThisConn"}}, {"closeIdleConns", nil}} {
+		{"removeConn", []string{"hasTimer", "isThisConn"}}, {"closeIdleConns", nil},
+		{"grabConnTo", []string{"idleLeft", "addressMatches", "hasTimer"}}} {
 		if fd := findFunc(tr, "connGroup", fn.name); fd != nil {
 			rows, unk := f.runScenariosFixed(fd, fn.preds, nil, map[string]bool{"leave-loop": true, "next-iteration": true}, poolClassify, poolEffect)
 			emit(fn.name+"Flow", rows, unk)
